@@ -81,6 +81,22 @@ Definition spec_save (t : table) (v : rec) (o : obs) : bool :=
   && (r_id (o_ret o) =? k) && same_on data_cols (o_ret o) v
   && (o_ra o =? 1).
 
+(* what a rule defines for a colliding stored row [old] ([row] = the row afterwards).  A conditional
+   rule (OnConflict.Where) applies only when the STORED row satisfies the condition, otherwise the row
+   stays untouched; a TargetWhere predicate on the (non-partial) key index restricts nothing. *)
+Fixpoint coll_ok (ru : rule) (v ex old row : rec) (ra : Z) : bool :=
+  match ru with
+  | RNothing => rec_eqb row old && (ra =? 0)
+  | RUpdates cols =>
+      forallb (fun c => val_eqb (get_col c row)
+                          (if mem_col c cols then get_col c ex else get_col c old)) all_cols
+      && (ra =? 1)
+  | RAll => same_on data_cols row v && (ra =? 1)
+  | RWhere k r => if r_age old <? k then coll_ok r v ex old row ra
+                  else rec_eqb row old && (ra =? 0)
+  | RTarget _ r => coll_ok r v ex old row ra
+  end.
+
 (* Create with an OnConflict rule leaves exactly the rows and column values the rule defines.
    [ex] = the row as it would be inserted: v with zero tracked times replaced by now. *)
 Definition spec_upsert (t : table) (now : Z) (ru : rule) (v : rec) (o : obs) : bool :=
@@ -93,15 +109,7 @@ Definition spec_upsert (t : table) (now : Z) (ru : rule) (v : rec) (o : obs) : b
      | None, Some row =>           (* no collision: the value is inserted *)
          ((negb (r_id v =? 0)) || fresh_key t k)
          && same_on (data_cols ++ [CCat; CUat]) row ex && (o_ra o =? 1)
-     | Some old, Some row =>
-         match ru with
-         | RNothing => rec_eqb row old && (o_ra o =? 0)
-         | RUpdates cols =>
-             forallb (fun c => val_eqb (get_col c row)
-                                 (if mem_col c cols then get_col c ex else get_col c old)) all_cols
-             && (o_ra o =? 1)
-         | RAll => same_on data_cols row v && (o_ra o =? 1)
-         end
+     | Some old, Some row => coll_ok ru v ex old row (o_ra o)
      | _, None => false
      end.
 
